@@ -36,9 +36,11 @@ pub enum Op {
     SortAsc,
     SortDesc,
     Rename(usize, String),
-    Extend(Vec<String>),
+    /// names, shape of the iterator: 0 = exact size hint (Vec), 1 = lower bound 0 (filter), 2 = exact half chained with a filtered half, 3 = no upper bound (from_fn)
+    Extend(Vec<String>, u8),
     Clear,
-    Collect,
+    /// 0 = exact size hint, 1 = through a filter
+    Collect(u8),
     CloneIt,
     GetMutEdit(String),
     IterMutEdit,
@@ -91,16 +93,20 @@ pub fn actions(st: &St, alphabet: &[String]) -> Vec<Op> {
             v.push(Op::Rename(i, st.model[i].0.clone()));
         }
     }
-    v.push(Op::Extend(vec![]));
-    if !absent.is_empty() {
-        v.push(Op::Extend(vec![absent[0].clone()]));
-    }
-    if absent.len() >= 2 {
-        v.push(Op::Extend(vec![absent[0].clone(), absent[1].clone()]));
-        v.push(Op::Extend(vec![absent[1].clone(), absent[0].clone()]));
+    v.push(Op::Extend(vec![], 0));
+    v.push(Op::Extend(vec![], 1));
+    for kind in 0..4u8 {
+        if !absent.is_empty() {
+            v.push(Op::Extend(vec![absent[0].clone()], kind));
+        }
+        if absent.len() >= 2 {
+            v.push(Op::Extend(vec![absent[0].clone(), absent[1].clone()], kind));
+            v.push(Op::Extend(vec![absent[1].clone(), absent[0].clone()], kind));
+        }
     }
     v.push(Op::Clear);
-    v.push(Op::Collect);
+    v.push(Op::Collect(0));
+    v.push(Op::Collect(1));
     v.push(Op::CloneIt);
     v.push(Op::IterMutEdit);
     v
@@ -181,7 +187,7 @@ pub fn step(st: &St, op: &Op) -> Result<St, String> {
                     ns.model[*i].0 = n.clone();
                 }
             }
-            Op::Extend(v) => {
+            Op::Extend(v, kind) => {
                 let mut items = Vec::new();
                 for n in v {
                     let id = ns.next_id;
@@ -189,15 +195,26 @@ pub fn step(st: &St, op: &Op) -> Result<St, String> {
                     items.push(It { name: n.clone(), id });
                     ns.model.push((n.clone(), id));
                 }
-                ns.list.extend(items);
+                match kind {
+                    0 => ns.list.extend(items),
+                    1 => ns.list.extend(items.into_iter().filter(|_| true)),
+                    2 => {
+                        let second = items.split_off(items.len() / 2);
+                        ns.list.extend(items.into_iter().chain(second.into_iter().filter(|_| true)));
+                    }
+                    _ => {
+                        let mut it = items.into_iter();
+                        ns.list.extend(std::iter::from_fn(move || it.next()));
+                    }
+                }
             }
             Op::Clear => {
                 ns.list.clear();
                 ns.model.clear();
             }
-            Op::Collect => {
+            Op::Collect(kind) => {
                 let l = std::mem::take(&mut ns.list);
-                ns.list = l.into_iter().collect();
+                ns.list = if *kind == 0 { l.into_iter().collect() } else { l.into_iter().filter(|_| true).collect() };
             }
             Op::CloneIt => {
                 let l = ns.list.clone();
@@ -427,6 +444,75 @@ pub fn run(tier: &str) -> Run {
     if (dfs_viol > 0) != !viol.is_empty() && viol.iter().any(|v| v.0.len() <= depth) {
         run.machinery("DFS and BFS disagree about the existence of short violations");
     }
+    // long lists (sorting and rebuilding strategies may depend on the length): lists of N elements pushed in several
+    // arrangements, then every operation sequence of length <= 2, every state checked
+    {
+        let mut long_paths = 0u64;
+        let mut long_states = std::collections::HashSet::new();
+        for nn in if tier == "thorough" { vec![20usize, 21, 25, 33, 64] } else { vec![21usize, 25, 64] } {
+            let mut al: Vec<String> = (0..nn).map(|i| format!("n{i:03}")).collect();
+            al.push("zz1".into());
+            al.push("aa0".into());
+            let perms: Vec<Vec<usize>> = vec![
+                (0..nn).map(|i| (i + 1) % nn).collect(),
+                (0..nn).rev().collect(),
+                (0..nn).map(|i| (i * 7 + 3) % nn).collect(),
+                (0..nn).map(|i| if i < nn / 2 { (i + 3) % (nn / 2) } else { nn / 2 + (i - nn / 2 + 5) % (nn - nn / 2) }).collect(),
+                (0..nn).collect(),
+            ];
+            for perm in perms {
+                let mut seen = vec![false; nn];
+                if !perm.iter().all(|i| !std::mem::replace(&mut seen[*i], true)) {
+                    continue;
+                }
+                let mut st = init.clone();
+                let mut hist: Vec<Op> = Vec::new();
+                for i in &perm {
+                    let op = Op::Push(al[*i].clone());
+                    st = match step(&st, &op) {
+                        Ok(s) => s,
+                        Err(e) => {
+                            hist.push(op.clone());
+                            run.violation(key_of(&hist, &e), format!("long list, after {} pushes: {e}", hist.len()), json!({"names": nn, "history": [], "ops": ops_to_json(&hist)}));
+                            break;
+                        }
+                    };
+                    hist.push(op);
+                }
+                if hist.len() != nn {
+                    continue;
+                }
+                // depth-2 exploration from this state
+                let first = actions(&st, &al);
+                for a1 in &first {
+                    long_paths += 1;
+                    let mut h1 = hist.clone();
+                    h1.push(a1.clone());
+                    let s1 = match step(&st, a1).and_then(|s| invariant(&s, &al).map(|_| s)) {
+                        Ok(s) => s,
+                        Err(e) => {
+                            run.violation(format!("{}/long-list", key_of(&h1, &e)), format!("list of {nn} elements, then {a1:?}: {e}"), json!({"names": nn, "history": [format!("{a1:?}")], "ops": ops_to_json(&h1)}));
+                            continue;
+                        }
+                    };
+                    long_states.insert(fnv1a(canon(&s1).as_bytes()));
+                    // second operation: the order-sensitive ones and lookups by removal
+                    for a2 in actions(&s1, &al).into_iter().filter(|o| matches!(o, Op::SortAsc | Op::SortDesc | Op::RetainEvenIdx | Op::Pop | Op::Collect(_) | Op::CloneIt | Op::SwapRemoveIdx(0) | Op::Truncate(1) | Op::Extend(_, 1))) {
+                        long_paths += 1;
+                        if let Err(e) = step(&s1, &a2).and_then(|s| invariant(&s, &al).map(|_| s)) {
+                            let mut h2 = h1.clone();
+                            h2.push(a2.clone());
+                            run.violation(format!("{}/long-list", key_of(&h2, &e)), format!("list of {nn} elements, then {a1:?}, {a2:?}: {e}"), json!({"names": nn, "history": [format!("{a1:?}"), format!("{a2:?}")], "ops": ops_to_json(&h2)}));
+                        }
+                    }
+                }
+            }
+        }
+        run.evaluations += long_paths;
+        run.transitions += long_paths;
+        run.extra.insert("long_lists".into(), json!({"paths": long_paths, "distinct_states_after_one_operation": long_states.len()}));
+        run.outcome_n("long-list transitions", long_paths);
+    }
     for (hist, err) in &viol {
         let key = key_of(hist, err);
         run.outcome("violating-transition");
@@ -437,7 +523,7 @@ pub fn run(tier: &str) -> Run {
         );
     }
     run.outcome_n("transitions-ok", stats.transitions as u64 - viol.len() as u64);
-    run.rule = "bfs over all listed ItemList operations (every argument incl. out-of-range) on the real ItemList; a state is the item order plus the (key,index) pairs of the hidden map; every lookup is checked in every state against a Vec model; non-trivial = non-empty list".into();
+    run.rule = "bfs over all listed ItemList operations (every argument incl. out-of-range) on the real ItemList; a state is the item order plus the (key,index) pairs of the hidden map; every lookup is checked in every state against a Vec model; long lists: 21 / 25 / 64 (thorough also 20, 33) elements pushed in rotated, reversed, multiplicative, two-block and sorted order, then every operation and every order-sensitive second operation; non-trivial = non-empty list".into();
     run.sample(json!(["Push(a)", "Push(b)", "SwapRemove(b)"]));
     run.sample(json!(order.iter().take(8).collect::<Vec<_>>()));
     run.assumptions = vec![
@@ -463,9 +549,9 @@ fn ops_to_json(h: &[Op]) -> Value {
                 Op::SortAsc => json!(["sort_asc"]),
                 Op::SortDesc => json!(["sort_desc"]),
                 Op::Rename(i, n) => json!(["rename", i, n]),
-                Op::Extend(v) => json!(["extend", v]),
+                Op::Extend(v, k) => json!(["extend", v, k]),
                 Op::Clear => json!(["clear"]),
-                Op::Collect => json!(["collect"]),
+                Op::Collect(k) => json!(["collect", k]),
                 Op::CloneIt => json!(["clone"]),
                 Op::GetMutEdit(n) => json!(["get_mut_edit", n]),
                 Op::IterMutEdit => json!(["iter_mut_edit"]),
@@ -491,9 +577,9 @@ fn op_from_json(v: &Value) -> Option<Op> {
         "sort_asc" => Op::SortAsc,
         "sort_desc" => Op::SortDesc,
         "rename" => Op::Rename(u(1)?, s(2)?),
-        "extend" => Op::Extend(a.get(1)?.as_array()?.iter().filter_map(|x| x.as_str().map(|s| s.to_string())).collect()),
+        "extend" => Op::Extend(a.get(1)?.as_array()?.iter().filter_map(|x| x.as_str().map(|s| s.to_string())).collect(), u(2).unwrap_or(0) as u8),
         "clear" => Op::Clear,
-        "collect" => Op::Collect,
+        "collect" => Op::Collect(u(1).unwrap_or(0) as u8),
         "clone" => Op::CloneIt,
         "get_mut_edit" => Op::GetMutEdit(s(1)?),
         "iter_mut_edit" => Op::IterMutEdit,
@@ -503,7 +589,14 @@ fn op_from_json(v: &Value) -> Option<Op> {
 
 pub fn replay(v: &Value) -> Result<String, String> {
     let n = v["names"].as_u64().unwrap_or(4) as usize;
-    let alphabet = names(n);
+    let alphabet = if n <= 7 {
+        names(n)
+    } else {
+        let mut al: Vec<String> = (0..n).map(|i| format!("n{i:03}")).collect();
+        al.push("zz1".into());
+        al.push("aa0".into());
+        al
+    };
     let ops: Vec<Op> = v["ops"].as_array().ok_or("no ops")?.iter().filter_map(op_from_json).collect();
     let mut st = St { list: ItemList::new(), model: vec![], next_id: 0 };
     for (i, op) in ops.iter().enumerate() {
